@@ -123,6 +123,10 @@ def extract(dump_path, progs, posmap, stats):
         pidx, nid = m
         prog = progs[pidx]
         node = prog["nodes"][nid - 1]
+        par0 = pars[pidx].get(nid, 0)
+        if par0 and prog["nodes"][par0 - 1]["k"] == "asg" and prog["nodes"][par0 - 1]["op"] == "=" and prog["nodes"][par0 - 1]["a"] == nid:
+            bump("values_on_assigned_lvalue_skipped")      # the left side of `=` is written, not read
+            continue
         for v in vals.get(vid, []):
             if v.get("possible") or v.get("inconclusive"):
                 bump("values_possible")
